@@ -9,9 +9,9 @@
 
   Modelled here (one Lean function per Python site).  The code modelled is /repo with commit
   9b15a948 "definition domains are saved and annotated in sorted order" (the repair of the defects
-  called D1701 / D1702 below, made for C11) and with this property's patches
-  fixes/D1703_enabled_types_sorted, D1704_unique_protoclusters_one_total_key and
-  D1705_filter_results_tie_by_position applied; the pre-fix behaviour is kept as `…Old` for the
+  called D51 / D51b below, made for C11) and with this property's patches
+  fixes/D53_enabled_types_sorted, D54_unique_protoclusters_one_total_key and
+  D55_filter_results_tie_by_position applied; the pre-fix behaviour is kept as `…Old` for the
   negation witnesses:
 
     * `sorted(container, key=…)` followed by a loop                        → `foldSorted`
@@ -47,7 +47,7 @@ def leInt (a b : Int) : Bool := decide (a ≤ b)
 /-- `sorted(set_of_names)` -/
 def sortedNames (enum : List Int) : List Int := sortBy leInt enum
 
-/-! ### `Region.get_unique_protoclusters` (with D1704: one total key in both branches) -/
+/-! ### `Region.get_unique_protoclusters` (with D54: one total key in both branches) -/
 
 /-- what the sort key reads from a `Protocluster`, plus `uid` standing for everything else
     (core location, rule text, …: two different protoclusters have different `uid`s) -/
@@ -74,19 +74,19 @@ def protoLe (cross : Bool) (L : Int) (a b : Proto) : Bool := keyLe (protoKey cro
 def uniqueProtoclusters (cross : Bool) (L : Int) (enum : List Proto) : List Proto :=
   sortBy (protoLe cross L) enum
 
-/-- before D1704 a region that does not span the origin returned `sorted(clusters)`, which compares
+/-- before D54 a region that does not span the origin returned `sorted(clusters)`, which compares
     `(start, -len)` only (`CDSCollection.__lt__` between areas neither of which contains the other) -/
 def protoLeOld (a b : Proto) : Bool := decide (a.start < b.start ∨ (a.start = b.start ∧ -a.len ≤ -b.len))
 def uniqueProtoclustersOld (enum : List Proto) : List Proto := sortBy protoLeOld enum
 
-/-! ### `CDSResults.to_json`, `CDSResults.annotate`, `run_on_record` (D1701, D1702, D1703) -/
+/-! ### `CDSResults.to_json`, `CDSResults.annotate`, `run_on_record` (D51, D51b, D53) -/
 
 /-- `{key: sorted(val) for key, val in self.definition_domains.items()}`: the dict keeps insertion
     order (one entry per protocluster product, in protocluster order), each value is a set of names -/
 def definitionDomainsJson (defs : List (Int × List Int)) : List (Int × List Int) :=
   defs.map fun kv => (kv.1, sortedNames kv.2)
 
-/-- before D1701: `list(val)` -/
+/-- before D51: `list(val)` -/
 def definitionDomainsJsonOld (defs : List (Int × List Int)) : List (Int × List Int) := defs
 
 /-- one `_GeneFunctionAnnotation` of the detection tool: CORE (domain, product) or ADDITIONAL (domain) -/
@@ -108,7 +108,7 @@ def annotate (existing : List GeneFn) (prevIds : List Int) (defs : List (Int × 
     foldSorted leInt (fun acc d => addNew acc ⟨true, d, some kv.1⟩) acc kv.2) existing
   domains.foldl (fun acc d => if allMatching.contains d then acc else addNew acc ⟨false, d, none⟩) withCore
 
-/-- before D1702: `for domain in matching_domains` -/
+/-- before D51b: `for domain in matching_domains` -/
 def annotateOld (existing : List GeneFn) (prevIds : List Int) (defs : List (Int × List Int)) (domains : List Int) :
     List GeneFn :=
   let allMatching := prevIds ++ defs.flatMap (·.2)
@@ -118,7 +118,7 @@ def annotateOld (existing : List GeneFn) (prevIds : List Int) (defs : List (Int 
 /-- `cluster_types = sorted(ruleset.get_rule_names())` (`get_rule_names` returns a set) -/
 def enabledTypes (ruleNames : List Int) : List Int := sortedNames ruleNames
 
-/-! ### `filter_results`: the best hit of each overlap group (D1705) -/
+/-! ### `filter_results`: the best hit of each overlap group (D55) -/
 
 /-- `group = sorted(unordered_group, key=position)`, then the first maximum of the bitscore.
     `uid` is the hit's index in the gene's original hit list; deletions keep the relative order of
@@ -150,7 +150,7 @@ def filterResultsE (enum : List FHit → List FHit) (eqGroups : List (List Int))
   let out := eqGroups.foldl (filterPassE enum) hits
   if out.isEmpty && !hits.isEmpty then none else some out
 
-/-- before D1705: `best = list(group)[0]`, then the first strictly better hit in the set's own
+/-- before D55: `best = list(group)[0]`, then the first strictly better hit in the set's own
     iteration order (= C13's `groupBest` applied to the enumeration) -/
 def bestOfGroupOld (enum : List FHit) : Option FHit := groupBest enum
 
